@@ -38,6 +38,12 @@ class Gen:
         self.rng = rng
         self.n = 0
         self.workdir = workdir
+        self.force = []
+        # an association class keyed by an id (part of the start state)
+        mof = ('[Association] class VAssocId { [Key] string id; '
+               'VA REF left; VX REF right; string note; };')
+        for n in (NS1, NS2):
+            conn.compile_mof_string(mof, namespace=n)
 
     def uniq(self):
         self.n += 1
@@ -58,6 +64,10 @@ class Gen:
     # -- single-object scenarios ------------------------------------------------
     def scenarios(self):
         c, r = self.conn, self.rng
+        if self.force:
+            # second step of a two-step scenario
+            out, self.force = self.force, []
+            return out
         out = []
         u = self.uniq()
         ns = r.choice([NS1, NS1, NS2])
@@ -348,6 +358,8 @@ class Gen:
         "type-mismatch": 'instance of VN5 { k = "notanumber"; };',
         "unterminated-string": 'instance of VN5 { k = 3; s = "abc; };',
         "bad-property": 'instance of VN5 { k = 4; nosuchprop = 1; };',
+        # an error that is not a MOF error: the included file does not exist
+        "include-missing": '#pragma include ("nosuch%(u)d_%(j)d.mof")',
     }
 
     def batches(self, ns, u):
@@ -429,4 +441,78 @@ class Gen:
                     lambda: c.add_cimobjects(objs, namespace=ns)))
         out.append(("add_cimobjects", "bad-namespace",
                     lambda: c.add_cimobjects(good[0], namespace=BADNS)))
+        out += self.schema_classes(ns, u)
+        out += self.id_keyed_association(u)
+        return out
+
+    def schema_classes(self, ns, u):
+        """compile_schema_classes with a LIST of schema pragma files (small
+        hand-made schemas; every pragma file has to define every requested
+        class): the first file is fine, a later file is fine / lacks the
+        class / includes broken MOF / is missing; or the first one is bad."""
+        c, r = self.conn, self.rng
+        d = os.path.join(self.workdir, "schema%d" % u)
+        cname = "VS%d" % u
+        files = []
+        for part in ("a", "b", "c"):
+            sd = os.path.join(d, part)
+            os.makedirs(os.path.join(sd, "cls"), exist_ok=True)
+            with open(os.path.join(sd, "cls", cname + ".mof"), "w") as f:
+                f.write("class %s { [Key] uint32 k; string s_%s; };\n" %
+                        (cname, part))
+            pf = os.path.join(sd, "schema_%s.mof" % part)
+            with open(pf, "w") as f:
+                f.write('#pragma include ("cls/%s.mof")\n' % cname)
+            files.append((pf, sd))
+        how = r.choice(["valid", "class-missing-in-later-file",
+                        "broken-mof-in-later-file", "later-file-missing",
+                        "class-missing-in-first-file"])
+        k = r.choice([1, 2])
+        pfs = [x[0] for x in files]
+        if how == "class-missing-in-later-file":
+            open(files[k][0], "w").write("// nothing\n")
+        elif how == "broken-mof-in-later-file":
+            with open(os.path.join(files[k][1], "cls", cname + ".mof"),
+                      "w") as f:
+                f.write("class %s { oops\n" % cname)
+        elif how == "later-file-missing":
+            pfs[k] = os.path.join(d, "nosuch_schema.mof")
+        elif how == "class-missing-in-first-file":
+            open(files[0][0], "w").write("// nothing\n")
+        return [("compile_schema_classes", "%s@%d" % (how, k),
+                 lambda: c.compile_schema_classes(cname, pfs, namespace=ns))]
+
+    def id_keyed_association(self, u):
+        """An association class whose key is an id (the references are not
+        keys): a cross-namespace instance may collide with an instance that
+        exists in only ONE of the namespaces it has to be written to."""
+        c, r = self.conn, self.rng
+        out = []
+
+        def mk(aid, lns, rns, via, withpath):
+            left = _ipath("VA", lns, k=Uint32(1))
+            right = _ipath("VX", rns, name="x1", n=Uint16(1))
+            inst = CIMInstance("VAssocId", properties=[
+                CIMProperty("id", aid),
+                CIMProperty("left", left, reference_class="VA"),
+                CIMProperty("right", right, reference_class="VX"),
+                CIMProperty("note", "n%d" % u)])
+            if withpath:
+                inst.path = CIMInstanceName(
+                    "VAssocId", keybindings={"id": aid}, namespace=via)
+            return inst
+        aid = "a%d" % u
+        withpath = r.random() < 0.5
+        # a same-namespace instance (it exists in ONE namespace only) ...
+        via = r.choice([NS1, NS2])
+        second = ("CreateInstance", "assoc-id-cross-namespace-collides",
+                  lambda: c.CreateInstance(mk(aid, NS1, NS2, via, withpath),
+                                           namespace=via))
+
+        def first():
+            self.force = [second]
+            c.CreateInstance(mk(aid, NS1, NS1, NS1, withpath), namespace=NS1)
+        # ... then, as the next call, a cross-namespace one with the same id
+        for _ in range(4):          # weight inside the CreateInstance family
+            out.append(("CreateInstance", "assoc-id-one-namespace", first))
         return out
